@@ -249,8 +249,18 @@ def runOut (p : Params) (t : List String) (implObs : String) : String × List St
     else " ".intercalate frChk
   let viol :=
     match implRes (kvStr io "a") with
-    | some sa => if singleBitOf sa provide then [] else [s!"C12 selected-not-single-offered-bit sel={sa} provide={provide}"]
-    | none => []
+    | some sa => (if singleBitOf sa provide then [] else [s!"C12 selected-not-single-offered-bit sel={sa} provide={provide}"]) ++
+        -- the scripted receiver's bytes cannot complete a handshake (the specification function fails on them)
+        (match r.2 with
+         | .error e => if frChk.isEmpty then [s!"C12 initiator-completes-a-handshake-that-must-fail a=ok:{sa} spec={e.toString}"] else []
+         | .ok _ => [])
+    | none =>
+      -- the receiver sent a complete, conforming step 2 and step 4 (the specification function — the one
+      -- `sync_found` / `agree` are about — completes on exactly these bytes) and has completed on its side:
+      -- an initiator that fails now breaks "fails on both sides or agrees on both"
+      (match r.2 with
+       | .ok d => if frChk.isEmpty then [s!"C12 initiator-fails-a-handshake-the-responder-completes a={kvStr io "a"} spec=ok:{d.selected}"] else []
+       | .error _ => [])
   let tags :=
     (match r.2 with | .ok d => [s!"branch:out-ok-{d.selected}", "nontrivial"] | .error e => [s!"branch:out-{e.toString}"]) ++
     (if w1.length = 96 + 512 then ["branch:out-pad512"] else []) ++
